@@ -1,4 +1,4 @@
-// C16 harness: Rotation_Matrix, Spherical_Coordinates (both overloads), Angle (see checks/C16.py for the case grammar)
+// C16 harness: Rotation_Matrix, Spherical_Coordinates (both overloads), Cross (see checks/C16.py for the case grammar)
 #include "common.hpp"
 #include "libphysica/Linear_Algebra.hpp"
 using namespace libphysica;
@@ -63,11 +63,6 @@ static void handler(vh::Reader& r, vh::Out& o)
 		Vector axis = vec3(r);
 		put_vec(o, Spherical_Coordinates(rr, th, ph, axis));
 		put_vec(o, Spherical_Coordinates(rr, th, ph + h, axis));
-	}
-	else if(op == "angle")
-	{
-		Vector a(r.list()), b(r.list());
-		o.f(Angle(a, b));
 	}
 	else if(op == "cross")
 	{
